@@ -211,7 +211,7 @@ Proof. intros Hk H. apply istep_quiet; auto. intros r. apply sub_images_lookup. 
 
 Lemma on_error_istep corr code s : istep s [] (on_error corr code s).
 Proof. unfold on_error.
-  destruct (lookup corr (subs s)) eqn:E1. { apply istep_upd_keep; [intros c []|]. intros e0 _. reflexivity. }
+  destruct (lookup corr (subs s)) eqn:E1. { apply istep_upd_keep; [intros c []|]. intros e0 _. unfold entry_imgs. rewrite set_error_obj. reflexivity. }
   destruct (lookup corr (pubs s)). { apply istep_other_kind; [congruence|intros c []]. }
   destruct (lookup corr (xpubs s)). { apply istep_other_kind; [congruence|intros c []]. }
   destruct (lookup corr (ctrs s)). { apply istep_other_kind; [congruence|intros c []]. }
@@ -279,7 +279,7 @@ Proof. unfold do_find. destruct (closed s); [apply istep_scalar; reflexivity|].
   - repeat dmatch; cbn [fst snd]; try (apply istep_scalar; reflexivity); apply istep_other_kind; try congruence; intros c0 [].
   - destruct (e_obj e) as [o|] eqn:Eo.
     + destruct (o_user o); cbn [fst snd]; [apply istep_scalar; reflexivity|]. apply Hu; reflexivity.
-    + destruct (e_status e); [destruct (timed_out c s e)| |]; cbn [fst snd]; try (apply istep_scalar; reflexivity). apply Hr; auto.
+    + destruct (e_status e); [destruct (timed_out c s e)| | |]; cbn [fst snd]; try (apply istep_scalar; reflexivity). apply Hr; auto.
   - repeat dmatch; cbn [fst snd]; try (apply istep_scalar; reflexivity); apply istep_other_kind; try congruence; intros c0 [].
   - repeat dmatch; cbn [fst snd]; try (apply istep_scalar; reflexivity). Qed.
 
@@ -295,15 +295,29 @@ Lemma inactive_no_img s c : In c (inactive_cb s) -> is_img_cb c = false.
 Proof. unfold inactive_cb. destruct (driver_active s); [intros []|intros [<-|[]]; reflexivity]. Qed.
 
 Lemma do_release_istep_other k r s : k <> KSub -> istep s (fst (snd (do_release k r [] s))) (fst (do_release k r [] s)).
-Proof. intros Hk. unfold do_release. destruct (lookup r (getm k s)); cbn [fst snd].
-  - rewrite app_nil_r. eapply (istep_trans s [] (set_next_corr (next_corr s + 1) s)); [apply istep_scalar; reflexivity|].
-    apply istep_other_kind; auto. intros c. apply (inactive_no_img s).
-  - apply istep_quiet; [apply inactive_no_img|reflexivity]. Qed.
+Proof. intros Hk. unfold do_release. destruct (lookup r (getm k s)); [|apply istep_quiet; [apply inactive_no_img|reflexivity]].
+  destruct (ring_full s); [destruct k; try congruence|]; cbn [fst snd map]; rewrite ?app_nil_r;
+    (eapply (istep_trans s [] (set_next_corr (next_corr s + 1) s)); [apply istep_scalar; reflexivity|]);
+    apply istep_other_kind; auto; intros c; apply (inactive_no_img s). Qed.
 
 Lemma do_release_istep_sub r s e o :
   lookup r (subs s) = Some e -> e_obj e = Some o ->
   istep s (fst (snd (do_release KSub r (o_images o) s))) (fst (do_release KSub r (o_images o) s)).
-Proof. intros He Ho. unfold do_release. cbn [getm]. rewrite He. cbn [fst snd].
+Proof. intros He Ho. unfold do_release. cbn [getm]. rewrite He.
+  assert (Hsame : fst (snd (if ring_full s
+             then (setm KSub (remove r (subs (set_next_corr (next_corr s + 1) s))) (set_next_corr (next_corr s + 1) s),
+                   (inactive_cb s ++ map (fun img => CbUnavailImg r img 1) (o_images o), []))
+             else (setm KSub (remove r (subs (set_next_corr (next_corr s + 1) s))) (set_next_corr (next_corr s + 1) s),
+                   (inactive_cb s ++ map (fun img => CbUnavailImg r img 1) (o_images o), [Cmd (remove_cmd_type KSub) (client_id s) (next_corr s) [r]])))) =
+           inactive_cb s ++ map (fun img => CbUnavailImg r img 1) (o_images o) /\
+         fst (if ring_full s
+             then (setm KSub (remove r (subs (set_next_corr (next_corr s + 1) s))) (set_next_corr (next_corr s + 1) s),
+                   (inactive_cb s ++ map (fun img => CbUnavailImg r img 1) (o_images o), @nil cmd))
+             else (setm KSub (remove r (subs (set_next_corr (next_corr s + 1) s))) (set_next_corr (next_corr s + 1) s),
+                   (inactive_cb s ++ map (fun img => CbUnavailImg r img 1) (o_images o), [Cmd (remove_cmd_type KSub) (client_id s) (next_corr s) [r]]))) =
+           setm KSub (remove r (subs (set_next_corr (next_corr s + 1) s))) (set_next_corr (next_corr s + 1) s))
+    by (destruct (ring_full s); split; reflexivity).
+  cbn [getm]. destruct Hsame as [Hs1 Hs2]. rewrite Hs1, Hs2.
   intros m [A B]. rewrite track_app, (track_no_img (inactive_cb s) m (inactive_no_img s)).
   assert (Hg : iget r m = o_images o) by (rewrite A, sub_images_entry, He; unfold entry_imgs; rewrite Ho; reflexivity).
   rewrite (track_unavail_all r (o_images o) m Hg).
@@ -355,6 +369,7 @@ Proof. intros I. destruct o; cbn [step].
   - apply do_drop_istep; auto.
   - rewrite do_peek_state. unfold do_peek. destruct (user_obj k r s); cbn; apply istep_scalar; reflexivity.
   - apply do_close_istep; auto.
+  - cbn. apply istep_scalar; reflexivity.
   - cbn. apply istep_scalar; reflexivity.
   - cbn. apply istep_scalar; reflexivity.
   - cbn. apply istep_scalar; reflexivity.
